@@ -17,7 +17,7 @@ var intrinsics = map[string]intrinsic{}
 
 // packages whose init is not executed (globals stay zero, initHooks may patch)
 var skipInit = map[string]bool{
-	"os": true, "syscall": true, "runtime": true, "net": true, "time": true, "internal/poll": true,
+	"os": true, "syscall": true, "runtime": true, "net": true, "internal/poll": true,
 	"github.com/sirupsen/logrus": true, "log": true, "crypto/md5": true, "reflect": true,
 	"internal/godebug": true, "internal/cpu": true, "sync": true, "sync/atomic": true, "math/rand": true,
 	"expvar": true, "net/http": true, "crypto/tls": true, "crypto/x509": true, "fmt": true,
